@@ -31,14 +31,15 @@ def _on_alarm(signum, frame):
 def reset_eql_state():
     """Put the library's process-global state back to what a fresh process has (what the repo's own test
     fixture does for the registry, plus mode / expression stack / caching switch which a failing case may leave)."""
-    from entity_query_language.symbolic import Variable, SymbolicExpression, _symbolic_mode
+    from entity_query_language import symbolic as S
     from entity_query_language.cache_data import enable_caching
-    for c in list(Variable._cache_.values()):
-        c.clear()
-    Variable._cache_.clear()
-    _symbolic_mode.set(None)
-    SymbolicExpression._symbolic_expression_stack_.clear()
-    enable_caching()
+    for step in (lambda: [c.clear() for c in list(S.Variable._cache_.values())], lambda: S.Variable._cache_.clear(),
+                 lambda: S._symbolic_mode.set(None), lambda: S.SymbolicExpression._symbolic_expression_stack_.clear(),
+                 enable_caching):
+        try:    # each piece of global state on its own: a refactoring that renames one must not break the harness
+            step()
+        except AttributeError:
+            pass
 
 
 class ShardContext:
